@@ -14,8 +14,8 @@ Theorem C06_range_words : forall c msg,
   exists tr, msg_triples msg = Some tr /\ range_compress c msg = ROk (spec_words c tr).
 Proof. exact compress_words. Qed.
 
-(* NOT DONE (C06_range_readme_partial): Example readme_range = [0x1C31EFEB; 0x87B430DA] needs the
-   (cum, p) pairs of the README's quantised Gaussians pinned from the implementation (C03 family). *)
+(* The README vector [0x1C31EFEB; 0x87B430DA] is Props/C06_range_doc.v (C06_readme_range), computed from
+   the (cum, p) pairs pinned in Corr/Docvec_run.v, which the harness re-derives from the crate on every run. *)
 
 (* ------------------------------------------------------------------ C07 *)
 Theorem C07_range_seek : forall c l1 l2 sfx e1 d,
@@ -99,10 +99,8 @@ Theorem C12_range_one_word_per_symbol : forall c e s P cum p e', wf_rcfg c ->
   fst (renc_pos e) <= fst (renc_pos e') <= fst (renc_pos e) + 1.
 Proof. intros c e s P cum p e' Hc. exact (pos_advances c Hc e s P cum p e'). Qed.
 
-(* NOT DONE (C12_range_bits_log_partial): the corollary in R
-     bits <= sum (P_i - log2 p_i) + n * log2 (1 + 2^-(SB-WB-P)) + SB + 2*WB
-   follows from C12_range_size by taking log2 (monotone); it needs Coq Reals (standard-library
-   axioms) and is left to the lead together with the ANS analogue. *)
+(* The logarithmic corollary (bits <= 2*WB + 1 + information content + rounding overhead) is
+   Props/C12_range_bits.v (C12_range_bits), over Coq's reals. *)
 
 (* ------------------------------------------------------------------ C18 *)
 Theorem C18_range_num_words : forall c e ws, sit_wf (e_sit e) ->
